@@ -351,7 +351,7 @@ class Interp:
             return Fn("lib", name="builtins." + last)
         if fq in ("operator.or_",):
             return Fn("lib", name="operator.or_")
-        if fq in ("itertools.groupby", "operator.itemgetter", "itertools.accumulate"):
+        if fq in ("itertools.groupby", "operator.itemgetter", "itertools.accumulate", "itertools.product", "itertools.chain", "itertools.chain.from_iterable", "itertools.repeat", "itertools.islice"):
             return Fn("lib", name=fq)
         if fq in ("copy.deepcopy", "copy.copy"):
             return Fn("lib", name="identity")
